@@ -382,6 +382,16 @@ pub fn check(plans: &[Plan], recs: &[RunRec]) -> Outcome {
                 ),
             ));
         }
+        EndReason::ExitOverdue => {
+            out.violations.push(Violation::new(
+                "exit_overdue",
+                format!(
+                    "{} was seen but the command loop had not returned after other threads did {} more work ticks",
+                    if quit_seen { "quit" } else { "end-of-input" },
+                    super::super::kernel::EXIT_ALLOW_TICKS
+                ),
+            ));
+        }
         EndReason::StepCap | EndReason::TickCap | EndReason::Deadlock => {
             // Only the input thread's own behaviour counts: if it burned the budget
             // itself (or nothing can run) it is wedged; if search threads used it up
